@@ -160,6 +160,8 @@ int main(int argc, char** argv) {
 			kv("r", r); arObs();
 		} else if (c == "bs") {
 			if (op == "new") { std::memset(&g_buf, 0x5A, sizeof g_buf); g_ws = new (g_wsStore) WS{g_buf}; g_rs = new (g_rsStore) RS{g_buf}; }
+			// streams opened at a start cursor (any bit offset) over a buffer that still holds other data (all ones)
+			else if (op == "newat") { std::memset(&g_buf, 0xFF, sizeof g_buf); g_ws = new (g_wsStore) WS{g_buf, static_cast<Long>(a)}; g_rs = new (g_rsStore) RS{g_buf, static_cast<Long>(a)}; }
 			else if (op == "write") WDisp<32>::write(*g_ws, static_cast<int>(a), static_cast<uint32_t>(b) | (static_cast<uint32_t>(d) << 16));
 			else if (op == "read") { const uint32_t v = WDisp<32>::read(*g_rs, static_cast<int>(a)); out += "\"rv\":["; i(v & 0xFFFF); out += ','; i(v >> 16); out += "],"; }
 			if (op != "read") out += "\"rv\":[0,0],";
